@@ -26,7 +26,11 @@ RULE = (
     "delete-and-recreate histories of same-structure objects on one path (both stores, compression None/0/4, 4 rounds without sleeping, every load vs the latest save); "
     "restructuring histories (9 saves of 5 differently shaped objects to one path with mode 'o': attributes dropped, containers shrunk, array<->scalar<->list<->object, "
     "all-zero arrays over non-zero ones, root class changed; load after every save / with print_file in between / only at the end); after-error histories (a save that raises "
-    "on an un-storable member nested at 6 positions, twice; then the repaired same object, a pre-existing other object and 5 freshly built objects must round-trip). Every case: zip and dir round trip vs the original "
+    "on an un-storable member nested at 6 positions, twice; then the repaired same object, a pre-existing other object and 5 freshly built objects must round-trip). "
+    "Widening: memory layouts (transposed / strided / reversed / read-only / broadcast stride-0 / NumPy view of torch memory / diagonal / swapaxes arrays; expanded, permuted, "
+    "channels_last, unfold, from_numpy tensors), size thresholds (1200 attributes, 1500-item list, 1200-key dict, 1100-item tuple with arrays, 70-level lists / dicts, 55-level "
+    "object chain), one sub-object reachable by several paths, neutral calls (print_file, print_tree, repr, deepcopy, unrelated save / load) between history steps, third "
+    "generation on every 5th case, save / load under 13 process states (torch grad modes, default dtype, deterministic algorithms, thread count, np.errstate, np.printoptions). Every case: zip and dir round trip vs the original "
     "(deq roundtrip), zip vs dir (deq strict), second generation vs first (deq strict, all-numeric sequences by value). non-trivial = >=3 attributes in the graph "
     "and >=2 distinct value kinds; distinct = sha1 of the sorted multiset of (kind, depth)"
 )
